@@ -674,6 +674,9 @@ pub fn run(ctx: &Ctx) -> i32 {
             if rf.engine == "tcpe2e" {
                 return replay_one(ctx, &crate::engines::tcpe2e::TcpE2eEngine, &rf);
             }
+            if rf.engine == "makeready" {
+                return replay_one(ctx, &crate::engines::socksrv::MakeReadyEngine, &rf);
+            }
             if rf.engine == "dupstream" {
                 return replay_one(ctx, &crate::engines::socksrv::DupStreamEngine, &rf);
             }
@@ -750,6 +753,8 @@ pub fn run(ctx: &Ctx) -> i32 {
             total.merge(run_generated(ctx, &engine, "fault-sequences", move || c09_strategy(max_reqs.min(8)), ctx.cases(30_000, 1_500_000), 300));
             // TLS listener: plaintext, truncated ClientHello, silent peers; then a probe
             total.merge(crate::props::stack::leg(ctx, "C09"));
+            // a make-service with back-pressure: the accept loop must respect poll_ready
+            total.merge(run_generated(ctx, &crate::engines::socksrv::MakeReadyEngine, "capped-make-service", crate::engines::socksrv::makeready_strategy, ctx.cases(3_000, 100_000), 100));
             // accept loops written against the duplex listener's Stream interface
             total.merge(run_generated(ctx, &crate::engines::socksrv::DupStreamEngine, "duplex-stream-accept-loop", crate::engines::socksrv::dupstream_strategy, ctx.cases(3_000, 100_000), 100));
             // real TCP / Unix acceptors (real time): reset or close before accept, garbage, truncation
@@ -757,7 +762,8 @@ pub fn run(ctx: &Ctx) -> i32 {
             total.merge(run_generated(&sctx, &crate::engines::socksrv::SockEngine, "tcp-unix-acceptors", crate::engines::socksrv::strategy, ctx.cases(400, 20_000), 60));
             (
                 "same simulation as C01 plus 1-5 per-connection faults at generated instants (cancelled connect before the acceptor acknowledged it, immediate disconnect, garbage bytes, truncated head, truncated body, disconnect mid response, partial h2 preface) and handlers returning errors, interleaved with well-behaved requests on other connections. Checked after the horizon: every serving future is still pending, a fresh well-behaved probe client is served by every server, and every well-behaved request completed with its correct response. non-trivial = a fault was injected while a well-behaved request was in flight and the probes succeeded; distinct by hash of the case",
-                vec![("fault-injected", 0.8), ("fault-while-request-in-flight", 0.2), ("fault-cancelled-connect", 0.2), ("handler-error", 0.1), ("tcp-reset-before-accept", 0.002), ("unix-acceptor", 0.003)],
+                // fractions over all legs (the netsim fault leg is about three quarters of the evaluations)
+                vec![("fault-injected", 0.6), ("fault-while-request-in-flight", 0.15), ("fault-cancelled-connect", 0.15), ("handler-error", 0.07), ("tcp-reset-before-accept", 0.002), ("unix-acceptor", 0.003), ("more-clients-than-the-cap", 0.02), ("duplex-stream-cancelled-connect", 0.02)],
             )
         }
     };
